@@ -233,8 +233,10 @@ PREDICATES = {"roundtrip": p_roundtrip, "perm": p_perm, "address": p_address, "r
               "substitution": p_substitution}
 
 
-def eval_pred(kc):
-    kind, case = kc
+def eval_pred(kind, case=None):
+    """eval_pred(kind, case) or eval_pred((kind, case)) (the latter for pool.map)"""
+    if case is None:
+        kind, case = kind
     try:
         return PREDICATES[kind](case)
     except Exception as e:
@@ -425,8 +427,12 @@ def run(ctx):
     t1 = time.time()
     impls = pmap(impl_line, reqs, workers=ctx.workers, chunksize=2)
     t2 = time.time()
+    seen = {}
     for (kind, line), model, impl in zip(lines, answers, impls):
-        if rec.compare(kind, {"line": line}, impl, model, determined=True, key=line[:300],
+        seen[kind] = seen.get(kind, 0) + 1
+        # the first few requests of each kind carry the key "line": ./check re-executes those under line monitoring
+        case = {"line": line} if seen[kind] <= 4 else {"request": line}
+        if rec.compare(kind, case, impl, model, determined=True, key=line[:300],
                        nontrivial=not line.endswith(" s")):
             rec.sample(kind, {"request": line[:200], "answer": model[:200]})
         if impl == REJECT:
@@ -434,7 +440,11 @@ def run(ctx):
     results = pmap(eval_pred, preds, workers=ctx.workers, chunksize=1)
     rec.note(f"timing: model {t1 - t0:.1f}s, implementation {t2 - t1:.1f}s, predicates {time.time() - t2:.1f}s")
     nsub = 0
+    covn = {}
     for (kind, case), (ok, got, want) in zip(preds, results):
+        covn[kind] = covn.get(kind, 0) + 1
+        if covn[kind] <= 2:
+            rec.cov_pred(kind, case)   # small sample re-executed under line monitoring by ./check
         if kind == "substitution":
             nsub += len(case["chars"]) - 1
         if ok:
@@ -448,7 +458,8 @@ def run(ctx):
 def replay(ctx, v):
     """re-execute one recorded violation exactly; True if it still violates"""
     case = v["case"]
-    if "line" in case:
-        return impl_line(case["line"]) != ctx.driver("drv_c16").one(model_line(case["line"]))
-    ok, _, _ = eval_pred((case["pred"], case))
+    line = case.get("line") or case.get("request")
+    if line is not None:
+        return impl_line(line) != ctx.driver("drv_c16").one(model_line(line))
+    ok, _, _ = eval_pred(case["pred"], case)
     return not ok
